@@ -383,6 +383,12 @@ impl Prop for C02 {
     }
     fn run_case(&mut self, ctx: &mut Ctx, k: u64) {
         let (case, class) = self.case_for(ctx, k);
+        if ctx.replay {
+            eprintln!("replaying case {k}: class={class} api={} ext={} len={} origin={}", case.api, case.ext, case.bytes.len(), case.origin);
+            if let Some(p) = std::env::var_os("VERIF_DUMP") {
+                let _ = std::fs::write(p, &case.bytes);
+            }
+        }
         ctx.begin(k);
         exec_load(ctx, &case, class, "C02");
     }
